@@ -11,10 +11,10 @@ CHECKS = {
  "C01": dict(engine="isa", category="model_checking", technique="exhaustive enumeration of (program, input) transitions of a reference eBPF machine over boundary alphabets, every one replayed on the interpreter and compared on the full observable state",
    text=ISA_TEXT + "Every model transition is executed on the real interpreter (instruction budget hook) and compared: returned value, Ok/Err class, packet and metadata bytes.",
    design_ref="DESIGN.md section 4 C01"),
- "C02": dict(engine="mem", category="model_checking", technique="exhaustive enumeration of access form x effective address (every offset within 9 bytes of both ends of every region, null, wrap-around, 2^63 away) x base+offset decomposition x region layout (incl. nested / overlapping registered ranges, a 68 KiB packet) x what precedes the access (nothing, a narrower access of the same kind at the same address, r10 moved under a permissive verifier), each run on the interpreter against a containment predicate, with guard pages and canaries around every buffer",
+ "C02": dict(engine="mem", category="model_checking", technique="exhaustive enumeration of access form x effective address (every offset within 9 bytes of both ends of every region, null, wrap-around, 2^63 away) x base+offset decomposition x region layout (incl. nested / overlapping registered ranges, a 68 KiB packet) x what precedes the access (nothing, a narrower access of the same kind at the same address, the same instruction on a safe address with the address register then rewritten / advanced / returned by a helper, r10 moved under a permissive verifier), each run on the interpreter against a containment predicate, with guard pages and canaries around every buffer",
    text="One transition (one access) per case, complete product of the alphabets. Expected: Ok iff all bytes lie inside packet, metadata buffer, stack or one registered range; on Ok the loaded value / stored bytes must be exact and nothing else may change; on Err every byte of every buffer and all canaries must be unchanged; never a panic; a fault kills the worker and is attributed to the case.",
    design_ref="DESIGN.md section 4 C02"),
- "C07": dict(engine="calls", category="model_checking", technique="exhaustive enumeration of call-graph programs (chains of depth 0..9 forward/backward, bounded self-recursion) x 16 body variants x stack-usage calculators x register values, each run on the reference machine (frames, callee-saved registers, r10 lowering, depth limit, stack bounds) and compared with the interpreter; JIT compared with the interpreter where defined",
+ "C07": dict(engine="calls", category="model_checking", technique="exhaustive enumeration of call-graph programs (chains of depth 0..9 forward/backward, bounded self-recursion) x body variants (callee-saved registers by 64- or 32-bit writes, stack tags in every / only the outer frames, helper calls, each of the 8 packet-load opcodes before a call) x stack-usage calculators (constants incl. non-multiples of 8, pc-dependent, program-dependent; set before or after loading) x register values, each run on the reference machine (frames, callee-saved registers, r10 lowering, depth limit, stack bounds) and compared with the interpreter; JIT compared with the interpreter where defined",
    text="Each program folds what the property talks about into its result: r6-r9 and the stack tag after every return, the frame distance r10(caller) - r10(callee) computed inside the callee, r0-r5 passing through call and return, resumption at call+1. The reference machine gives the value, or Err for depth > 8 / stack below its 512 bytes. The JIT's deviation (recorded finding) is recognised by a deviation model (frame distance 0); anything else it does differently is reported.",
    design_ref="DESIGN.md section 4 C07"),
  "C08": dict(engine="calls", category="model_checking", technique="exhaustive enumeration of helper id x all 16 registered subsets x call site (top level, local-call depth 1-3, after 0-2 earlier calls) x argument tuples x dst field x other instructions around the call (ldabs/ldind, mul/div/mod, stack+atomic add, dead code) x re-binding of the id between two compilations x engine, with instrumented helpers whose 2-instruction assembly entry stub records rsp",
@@ -26,7 +26,7 @@ CHECKS = {
  "C10": dict(engine="api", category="model_checking", technique="explicit-state breadth-first search (stateright 0.31) to the fix-point of an abstract model of the VM API; every transition replays the state's history on a fresh real VM, applies the action and compares, then probes the reached state; self-loop edges get a depth-2 look-ahead",
    text="The abstract state is (kind, program, verifier, helper, calculator, what each compiler holds, offsets); 9 programs (incl. ones only a permissive verifier loads), 4 verifiers, 2 helpers, 3 offset pairs. next_state() is executed against the implementation for every edge of the state graph (conformance per transition, not per counter-example); the post-state probe (execute on three packets, both compiled entry points, a set_program that must fail and change nothing) checks on every edge that the state reached behaves as the model says whatever path led there. Run twice; state and transition counts must agree.",
    design_ref="DESIGN.md section 4 C10"),
- "C11": dict(engine="mem", category="model_checking", technique="same access x address x layout enumeration as C02 (no allowed ranges), each case compiled with Cranelift and executed in a forked child; observation = wait status + shared-memory arena",
+ "C11": dict(engine="mem", category="model_checking", technique="same access x address x layout x what-precedes-the-access enumeration as C02 (no allowed ranges; also r10 as the stored value, and one stack slot reached through r10 and through a derived pointer), each case compiled with Cranelift and executed in a forked child; observation = wait status + shared-memory arena",
    text="In-bounds: the child returns and the value/bytes are those of the access. Out of bounds: the child must die with SIGILL (the trap) and the arena, inspected by the parent through the shared mapping, must be byte-for-byte unchanged; SIGSEGV/SIGBUS or a changed canary means the access was attempted.",
    design_ref="DESIGN.md section 4 C11"),
  "C03": dict(engine="isa", category="model_checking", technique="same enumeration as C01; each program is JIT-compiled and run in a forked child; oracle = the interpreter wherever the reference machine says the result is defined",
